@@ -7,6 +7,7 @@ notes={
  'M38':'equivalent under the quantifier: an exact duplicate Follow_Up overwrites the response time with the same value',
  'M39':'only changes the outcome when two candidates compare equal, i.e. inside the open finding C05.outcome_depends_on_announce_order; caught by the existing tests anyway',
  'M42':'no longer compiles after fix 1ef560e; torn-update mutants live in /verif/c17/mutants (m1a, m1b, both detected) and S-C17-2',
+ 'S-C19-4':'outside what runs as real code for C19: the change is in the publication step of the daemon (`run()` in main.rs hands the pre-BMCA port estimate to `current_ds`); expsim runs the real observer and exporter on states built by the ptpsim host model with the same getter calls, and daemonsim runs the real main.rs but does not read the watch channel. Named as a limit in 0.2',
  'M26':'arms changed by fix 0a6e9da; was caught by the existing tests',
 }
 def key(k):
@@ -26,7 +27,7 @@ for k in sorted(r,key=key):
     t+=f"| {k} | {kind} | {v['what'][:120].replace('|','/')} | {'/'.join(v['targets'])} | {status}{extra} | {det} |\n"
 n_app=sum(1 for v in r.values() if v['applied']); n_det=sum(1 for v in r.values() if v.get('detected_by'))
 n_seed=sum(1 for v in r.values() if v['kind']=='seeded'); n_seed_det=sum(1 for v in r.values() if v['kind']=='seeded' and v.get('detected_by'))
-head=f"**{n_seed_det} of {n_seed} seeded changes** (four rounds of independent sub-agents that saw only the property text (rounds 1-3 for all 18 claimed properties, round 4 for the six that had needed most strengthening); rounds 2-4 were told what the earlier rounds had done and asked for a different, subtler mechanism - round 3 for one that needs an unusual-but-legal configuration to meet a specific history) and **{n_det} of {n_app} applicable changes overall** are reported with a replay by the quick tier at the default seed.\n\n"
+head=f"**{n_seed_det} of {n_seed} seeded changes** (four rounds of independent sub-agents that saw only the property text (18 claimed properties x 4 rounds); rounds 2-4 were told what the earlier rounds had done and asked for a different, subtler mechanism - round 3 for one that needs an unusual-but-legal configuration to meet a specific history) and **{n_det} of {n_app} applicable changes overall** are reported with a replay by the quick tier at the default seed.\n\n"
 s=open('/verif/DESIGN.md').read()
 s=re.sub(r'<!-- SENS-BEGIN -->.*?<!-- SENS-END -->', '<!-- SENS-BEGIN -->\n'+head+t+'<!-- SENS-END -->', s, flags=re.S)
 open('/verif/DESIGN.md','w').write(s)
